@@ -460,6 +460,15 @@ def run(ctx):
             ctx.oracle_fail(c, r[0], r[1])
         nt = doc["ns"] != "none" or "\n      " in xml or 'id="' in xml
         ctx.count(("d", xml), nt, "doc:" + doc["ns"], sample={"xml": xml} if nt and len(ctx.samples) < 3 else None)
+    # the node numbers come from the global counter: documents read while it passes its wrap-around (ids stay six digits)
+    for i in range(ctx.n(12, 120)):
+        doc = gen_doc(rng)
+        c = {"kind": "doc", "xml": render(doc), "ns": doc["ns"], "prefix": doc["prefix"]}
+        native.set_counter(rng.choice([999990, 999996, 999998, 999999]))
+        r = oracle(c)
+        if r:
+            ctx.oracle_fail(c, r[0], r[1])
+        ctx.count(("dw", c["xml"]), True, "doc:counter-wrap")
     # a prefix of the form ns<digits> (a legitimate prefix; ElementTree reserves the form for the prefixes it generates)
     for pfx in ("ns0", "ns12"):
         doc = gen_doc(rng)
